@@ -688,6 +688,25 @@ def run(facts, tier, ctx):
                                    "tables), so it cannot round-trip" % (bad[0], ty, bad[1])))
             else:
                 r_ord.ok({"type": ty, "variant": v["name"], "fields": [f["name"] for f in v["fields"]], "verdict": "ok"})
+    # ------------------------------------------------------------ no custom field codecs
+    # a `deserialize_with` / `serialize_with` / `with` helper on a config field replaces the derived field handling by
+    # arbitrary code on one side only; the config tree uses none, so any appearing is reported.
+    r_cod = RuleResult("ATTR/no-custom-codec", "no config field is (de)serialised through a custom with-helper")
+    names = [a for a in facts.adts if re.search(r"__(De)?[Ss]erializeWith$", a)]
+    for ty in tree:
+        short = ty
+        hits = [a for a in names if ("for %s>" % ty) in a]
+        if hits:
+            r_cod.fail(Finding("ATTR/no-custom-codec", ty, "custom-codec:%s" % ty.split("::")[-1], 0,
+                               "%s:%s" % (facts.adts[ty]["file"], facts.adts[ty]["line"]),
+                               "%s has field(s) routed through a custom serde helper (%d generated wrapper type(s)): what is "
+                               "parsed for such a field is whatever the helper returns, not the value in the document, so "
+                               "round trip and verify parity are no longer decided by the derive"
+                               % (ty, len(hits))))
+        else:
+            r_cod.ok({"type": ty, "verdict": "ok"})
+    r_cod.require_floor(8, "config types")
+    out.append(r_cod)
     r_ord.require_floor(5, "config structs with two or more fields")
     out.append(r_ord)
     return out
